@@ -522,24 +522,33 @@ class _Canon(ast.NodeTransformer):
         self._it_names = {k: v for k, v in self._it_names.items() if k not in bound}
         self._it_mods = {k for k in self._it_mods if k not in bound}
         self._module = n
+        self._classes = []
         return self.generic_visit(n)
 
     def visit_ClassDef(self, n):
-        # class-level tables `NAME = (<literals>)` (constants of the class): `for a, b in self.NAME` in a method is static as well
+        # class-level tables `_NAME = (<literals>)` bound once and never re-bound / mutated through an attribute anywhere in the
+        # module: a loop `for a, b in self._NAME` inside a method of the class is static too
         from .normalize import class_tables
-        saved = getattr(self, "_class_tables", None)
-        mod = getattr(self, "_module", None)
-        self._class_tables = class_tables(n, mod) if mod is not None else None
-        n = self.generic_visit(n)
-        self._class_tables = saved
-        return n
+        stack = self.__dict__.setdefault("_classes", [])
+        stack.append((n.name, class_tables(n, getattr(self, "_module", None)), 0))
+        try:
+            return self.generic_visit(n)
+        finally:
+            stack.pop()
 
     def visit_FunctionDef(self, n):
-        n = self.generic_visit(n)
+        stack = self.__dict__.setdefault("_classes", [])
+        # only the functions directly in a class body are its methods (a def nested in a method has its own parameters)
+        if stack:
+            stack[-1] = (stack[-1][0], stack[-1][1], stack[-1][2] + 1)
+        try:
+            n = self.generic_visit(n)
+        finally:
+            if stack:
+                stack[-1] = (stack[-1][0], stack[-1][1], stack[-1][2] - 1)
         from .normalize import normalize_function
-        tables = dict(getattr(self, "_module_tables", None) or {})
-        tables.update(getattr(self, "_class_tables", None) or {})
-        return normalize_function(n, tables or None)
+        cname, ctables = (stack[-1][0], stack[-1][1]) if stack and stack[-1][2] == 0 else (None, None)
+        return normalize_function(n, getattr(self, "_module_tables", None), ctables, cname)
 
     def visit_IfExp(self, n):
         self.generic_visit(n)
